@@ -271,6 +271,27 @@ def string_section(b, tier):
                 d.derives = list(ARB)
 
 
+def string_custom_sanitizer_section(b, tier):
+    """`sanitize(with = ..)` next to validators and derive(Arbitrary): the string generator cannot know what the function does and refuses the
+    combination (UNSPECIFIED: any verdict); should the macro accept it, whatever `arbitrary` returns must still satisfy the validators."""
+    from .lib import string_sanitizer_bodies
+    bodies = {n: bdy for (n, bdy, _) in string_sanitizer_bodies()}
+    for (sname, vals, sl_after) in (("take3", [("len_char_min", 5)], []), ("x2space", [("not_empty", None)], ["trim"]), ("x2space", [("len_char_min", 2), ("len_char_max", 6)], ["trim"]),
+                                    ("dup", [("len_char_max", 4)], []), ("trimend", [("len_char_min", 1)], [])):
+        for pos in ("first", "last"):
+            d = b.new(inner_string(), tags=["C09"])
+            if pos == "first":
+                add_with_sanitizer(d, bodies[sname], "closure")
+            for s_ in sl_after:
+                d.sans.append(San(s_))
+            if pos == "last":
+                add_with_sanitizer(d, bodies[sname], "path")
+            for (k, v) in vals:
+                d.vals.append(Vld(k, None if v is None else str(v), v))
+            d.derives = list(ARB)
+            d.unspecified = True
+
+
 def string_expr_section(b, tier):
     """length bounds given as expressions (the generator does arithmetic on them: `min + 16` when there is no maximum, `min * size_of::<char>()` ...)"""
     sup = "const A: usize = 32; const B: usize = 31; const N: usize = 3; const M: usize = 9;"
@@ -337,5 +358,6 @@ def build(tier, seed):
     float_section(b, tier)
     string_section(b, tier)
     string_expr_section(b, tier)
+    string_custom_sanitizer_section(b, tier)
     other_section(b, tier)
     return b.decls
